@@ -2,7 +2,9 @@ package pure
 
 import (
 	"errors"
+	"fmt"
 	"math"
+	"math/big"
 	"strconv"
 	"testing"
 	"time"
@@ -37,7 +39,12 @@ func errName(err error) string {
 	}
 }
 
-func recalc(i int64, q uint64, m int64) rateCall {
+func recalc(i int64, q uint64, m int64) (rc rateCall) {
+	defer func() { // a panic is neither of the two outcomes the property allows: recorded as an unknown error with a non-zero result
+		if p := recover(); p != nil {
+			rc = rateCall{I: i, Q: q, M: m, Err: "other:panic: " + fmt.Sprint(p), RI: -1, RQ: 0, Via: "recalculate"}
+		}
+	}()
 	r, err := limit.Rate{Interval: time.Duration(i), Quantity: q}.Recalculate(time.Duration(m))
 	return rateCall{I: i, Q: q, M: m, Err: errName(err), RI: int64(r.Interval), RQ: r.Quantity, Via: "recalculate"}
 }
@@ -81,15 +88,27 @@ func TestRecordRateBig(t *testing.T) {
 		var r limit.Rate
 		var err error
 		rt := limit.Rate{Interval: time.Duration(i), Quantity: q}
-		switch via {
-		case "optimize":
-			r, err = rt.Optimize()
-			m = int64(limit.OptimizationInterval)
-		case "flatten":
-			r, err = rt.Flatten()
-			m = 0
-		default:
-			r, err = rt.Recalculate(time.Duration(m))
+		panicked := ""
+		func() {
+			defer func() { // a panic is neither of the two outcomes the property allows: it is recorded, not fatal to the recorder
+				if p := recover(); p != nil {
+					panicked = fmt.Sprint(p)
+				}
+			}()
+			switch via {
+			case "optimize":
+				m = int64(limit.OptimizationInterval)
+				r, err = rt.Optimize()
+			case "flatten":
+				m = 0
+				r, err = rt.Flatten()
+			default:
+				r, err = rt.Recalculate(time.Duration(m))
+			}
+		}()
+		if panicked != "" {
+			out.put(rateCallBig{I: strconv.FormatInt(i, 10), Q: strconv.FormatUint(q, 10), M: strconv.FormatInt(m, 10), RI: "-1", RQ: "0", Err: "panic: " + panicked, Via: via})
+			return
 		}
 		out.put(rateCallBig{I: strconv.FormatInt(i, 10), Q: strconv.FormatUint(q, 10), M: strconv.FormatInt(m, 10),
 			RI: strconv.FormatInt(int64(r.Interval), 10), RQ: strconv.FormatUint(r.Quantity, 10), Err: errName(err), Via: via})
@@ -109,7 +128,7 @@ func TestRecordRateBig(t *testing.T) {
 		var i int64
 		var q uint64
 		var m int64
-		switch rnd.Intn(6) {
+		switch rnd.Intn(10) {
 		case 0: // floor(i/q) == m, with and without remainder
 			q = 1 + uint64(rnd.Int63n(1<<20))
 			m = 1 + rnd.Int63n(1<<30)
@@ -127,6 +146,31 @@ func TestRecordRateBig(t *testing.T) {
 		case 4:
 			i, q, m = 1+rnd.Int63n(1<<40), 1+uint64(rnd.Int63n(1<<40)), 0
 			put(i, q, m, "flatten")
+			continue
+		case 6, 7: // q*m/i in and around the band [2^64, 2^64 + 2^64/i): the high word of the 128-bit product equals the divisor
+			i = 1 + rnd.Int63n(1<<uint(1+rnd.Intn(40)))
+			m = i + 1 + rnd.Int63n(1<<uint(1+rnd.Intn(60)))
+			if m <= i {
+				m = i + 1
+			}
+			two64 := new(big.Int).Lsh(big.NewInt(1), 64)
+			edge := new(big.Int).Mul(big.NewInt(i+int64(rnd.Intn(2))), two64) // lower or upper edge of the band
+			qq := new(big.Int).Div(edge, big.NewInt(m))
+			qq.Add(qq, big.NewInt(int64(rnd.Intn(5))-1))
+			if qq.Sign() <= 0 || !qq.IsUint64() {
+				continue
+			}
+			q = qq.Uint64()
+		case 8: // the same band through Optimize (minimum = OptimizationInterval)
+			oi := int64(limit.OptimizationInterval)
+			i = 1 + rnd.Int63n(oi)
+			two64 := new(big.Int).Lsh(big.NewInt(1), 64)
+			qq := new(big.Int).Div(new(big.Int).Mul(big.NewInt(i+int64(rnd.Intn(2))), two64), big.NewInt(oi))
+			qq.Add(qq, big.NewInt(int64(rnd.Intn(5))-1))
+			if qq.Sign() <= 0 || !qq.IsUint64() {
+				continue
+			}
+			put(i, qq.Uint64(), 0, "optimize")
 			continue
 		default: // floor(i/q) = m +- 1
 			q = 1 + uint64(rnd.Int63n(1000))
